@@ -287,7 +287,8 @@ impl<K: Hash + Eq, KH: KeyHasher<K>, FH: BuildHasher, RH: BuildHasher, WH: Build
         }
 
         let fp_ratio = self.false_positive_ratio.unwrap();
-        if fp_ratio <= 0.0 || fp_ratio >= 1.0 {
+        // written so that NaN is rejected as well
+        if !(fp_ratio > 0.0 && fp_ratio < 1.0) {
             return Err(WTinyLFUError::InvalidFalsePositiveRatio(fp_ratio));
         }
 
